@@ -969,6 +969,9 @@ def is_proxy(x):
 
 
 # ---------------------------------------------------------------------------------------
+STR_CONST_HASH = [False]     # switched on by obligations whose code under test keys a dict by a symbolic string
+
+
 class SymStr:
     """symbolic str (z3 String, unbounded length).  Supports what attribute-name handling code does:
     ==, slicing with concrete bounds, startswith/endswith, concatenation with str.  Formatting gives a placeholder."""
@@ -998,10 +1001,17 @@ class SymStr:
         return SymBool(z3.simplify(self.e != z))
 
     def __hash__(self):
+        if STR_CONST_HASH[0]:
+            return 0        # constant-hash discipline (as for SymInt keys): dict / set membership is decided by == forks
         CUR.taint("hash() of a symbolic string (unmodelled C boundary)")
 
     def __len__(self):
         return CUR.enumerate_int(z3.Length(self.e))
+
+    def find(self, sub, *a):
+        if a:
+            CUR.taint("str.find with bounds on a symbolic string")
+        return SymInt(z3.IndexOf(self.e, self._lift(sub), z3.IntVal(0)))
 
     def length(self):
         return SymInt(z3.Length(self.e))
